@@ -661,14 +661,17 @@ def harness_args(tier):
     a.append({"kind": "harmonic", "n": 1, "op": "sphere", "depth": 1})
     a.append({"kind": "harmonic", "n": 2, "op": "box*2", "depth": 0, "table": [["d", "D_box*2"]], "markov_reps": 1})
     a.append({"kind": "npt", "n": 2, "kmax": 3})
+    a.append({"kind": "npt", "n": 3, "kmax": 3})
+    a.append({"kind": "dipole", "x": 0.5})
+    a.append({"kind": "harmonic", "n": 2, "op": "box", "depth": 1, "markov_reps": 1})
     if tier == "thorough":
         a.append({"kind": "harmonic", "n": 1, "op": "sphere", "depth": 2})
         a.append({"kind": "harmonic", "n": 1, "op": "ballbox", "depth": 1, "markov_reps": 1, "expand_limit": 6})
-        a.append({"kind": "harmonic", "n": 2, "op": "box", "depth": 1})
+        a.append({"kind": "harmonic", "n": 2, "op": "ball", "depth": 1, "markov_reps": 2})
         a.append({"kind": "harmonic", "n": 2, "op": "box*2", "depth": 1, "table": [["d", "D_box*2"]], "markov_reps": 2, "expand_limit": 4})
-        a.append({"kind": "dipole", "x": 0.5})
+        a.append({"kind": "dipole", "x": 5.0})
         a.append({"kind": "npt", "n": 2})
-        a.append({"kind": "npt", "n": 3})
+        a.append({"kind": "npt", "n": 3, "kmax": 5})
         a.append({"kind": "npt", "n": 2, "with_disp": True, "kmax": 2})
         a.append({"kind": "muvt", "nmax": 2, "sites": 3})
         a.append({"kind": "muvt", "nmax": 2, "with_disp": True, "sites": 2})
